@@ -25,7 +25,7 @@ def plan(tier, seed):
     pick = lambda xs: xs[int(rng.integers(len(xs)))]
     cases, i = [], 0
     for kind in models.KINDS:
-        for r in range(n if kind != 'cbmm' else max(3, n // 7)):
+        for r in range((n if kind != 'gmm' else 2 * n) if kind != 'cbmm' else max(3, n // 7)):      # (GMM fits are the cheapest and the only ones with a stopping tolerance attribute)
             K = int(pick([2, 3, 3, 4, 4, 5, 6]))
             D = int(rng.integers(2, 9))
             if kind == 'cbmm':
@@ -47,8 +47,9 @@ def plan(tier, seed):
                 o['inline_permutation_alignment'] = False
             if o.get('saliency') == 'zeros':
                 o['saliency'] = 'pos'
-            iters = int(pick([1, 2, 3, 5, 10, 20])) if kind != 'cbmm' else int(pick([1, 2]))
-            ini = pick(['dirichlet:1', 'dirichlet:0.3', 'blur:0.3', 'onehot', 'neardup', 'neardup', 'exactdup', 'uniform'])
+            # (half of the fits use most of the 1..20 budget: stopping rules and other iteration-dependent shortcuts only act near convergence)
+            iters = int(pick([1, 2, 3, 5, 10, 20, 20, 15, 12, 17, 19, 20])) if kind != 'cbmm' else int(pick([1, 2]))
+            ini = pick(['dirichlet:1', 'dirichlet:0.3', 'blur:0.3', 'onehot', 'neardup', 'neardup', 'exactdup', 'uniform', 'planted:0.2', 'planted:0.05', 'planted:0.4'] + (['planted:0.1', 'planted:0.2', 'planted:0.3', 'planted:0.02'] if kind in ('gmm', 'vmfmm', 'cwmm') else []))
             if kind == 'cbmm' and r % 2:
                 ini = 'neardup'; N = int(rng.integers(200, 400)); K = 3
             cases.append(dict(kind=kind, cls='gauss', K=K, N=N, D=D, lead=lead, init=ini,
@@ -70,6 +71,13 @@ def run_case(case, R):
     if neardup or tied:
         case = dict(case, init='dirichlet:1')
     s = scen.build(case)
+    if tied:
+        # an exactly tied start sits on an unstable symmetric fixed point of EM: relabelling changes the rounding of class-indexed
+        # operations (vectorised kernels treat positions 0/1 and a remainder 2 differently), the first rounding difference between the
+        # tied classes breaks the tie and every further iteration amplifies it (x6 per iteration observed, 5e-13 -> 6e-9 within
+        # five iterations on the unchanged tree). Replicas that perturb the data keep the tie exact and cannot measure this, so
+        # tied starts are followed for three iterations only, where the amplification stays far below the tolerance.
+        s.iterations = min(s.iterations, 3)
     if tied and s.init is not None:
         # exactly tied starts (two identical classes / the uniform start): an implementation without a preferred class index keeps the
         # tied classes bit-identical, so permuting them changes nothing - any tie breaking by position shows up only here
